@@ -17,7 +17,7 @@ from nf import Poly, ONE
 from spec import Spec
 from matmodel import MatModel, DIMS
 from lift import value_lanes, strip_ref, ArgView
-from common import api_roots, vec_info, tydef, atom_at, cell_term, TRUSTED_COMMON
+from common import api_roots, vec_info, tydef, atom_at, cell_term, const_value, const_width, TRUSTED_COMMON
 
 LEVEL = 'other'
 TECHNIQUE = 'exhaustive partial evaluation over the 24 EulerRot variants + polynomial identity checking over sin/cos atoms (MIR abstract interpretation)'
@@ -59,6 +59,25 @@ def _tuple_scalars(F, v, tyid):
 def _cases(ts, limit=6):
     from C12 import cases_with_assignment
     return cases_with_assignment(ts, limit)
+
+
+def big_enough(asg):
+    """what the threshold conditions of a case say about the tested magnitude X: True = 'X is above the threshold / non-zero',
+    False = below / zero, None = no such condition"""
+    out = None
+    for c_, v_ in asg.items():
+        if c_.op in ('flt', 'fle') and len(c_.args) == 2:
+            ks = [x for x in c_.args if isinstance(x, tm.T) and const_value(x) is not None]
+            if len(ks) != 1:
+                continue
+            const_first = c_.args[0] is ks[0]          # K < X  /  K <= X
+            val = v_ if const_first else (not v_)
+        elif c_.op in ('feq', 'fne') and any(const_value(x) == 0.0 for x in c_.args if isinstance(x, tm.T)):
+            val = (not v_) if c_.op == 'feq' else v_
+        else:
+            continue
+        out = val if out is None else (out and val)
+    return out
 
 
 def gimbal_branch(cs, ent, letters, ex, repeated):
@@ -181,14 +200,21 @@ def check_to_euler(ctx, cfg, F, H, M, done):
             n_reg = 0
             n_gimbal = 0
             for asg, cs in cases:
+                be_ = big_enough(asg)
                 if any(tm.is_const(c) for c in cs):
                     # gimbal-lock branch: the third angle is fixed at 0 by convention; the other two must still rebuild the rotation
+                    if be_ is True:
+                        bad = 'the gimbal-lock branch is taken when the tested magnitude is above the threshold (comparison reversed)'
+                        break
                     why = gimbal_branch(cs, ent, letters, ex, repeated)
                     if why:
                         bad = why
                         break
                     n_gimbal += 1
                     continue
+                if be_ is False:
+                    bad = 'the regular branch (three atan2) is taken when the tested magnitude is below the gimbal-lock threshold (comparison reversed)'
+                    break
                 alg = nf.Algebra()
                 alg.budget = 400000
                 S = Spec(alg)
@@ -258,11 +284,11 @@ def check_to_euler(ctx, cfg, F, H, M, done):
                 # the regular branch is guarded by  threshold < sqrt(..)  with a threshold that is a small multiple of the scalar type's own
                 # epsilon: the rebuilt rotation errs by ~eps/threshold on this branch and by ~threshold on the other, so both need threshold = O(eps)
                 for c_, v_ in asg.items():
-                    ks = [x for x in c_.args if isinstance(x, tm.T) and tm.is_const(x)] if c_.op in ('flt', 'fle') else []
+                    ks = [x for x in c_.args if isinstance(x, tm.T) and const_value(x) is not None] if c_.op in ('flt', 'fle') else []
                     if len(ks) != 1:
                         continue
-                    k = tm.f_of(ks[0])
-                    eps = 2.0 ** -23 if tm.csize(ks[0]) == 4 else 2.0 ** -52
+                    k = const_value(ks[0])
+                    eps = 2.0 ** -23 if const_width(ks[0]) == 4 else 2.0 ** -52
                     if not (eps <= k <= 1024 * eps):
                         bad = 'gimbal-lock threshold %g is %.3g times the epsilon of the scalar type (expected a small multiple: the documented 16 epsilon)' % (k, k / eps)
                         break
@@ -370,13 +396,19 @@ def check_to_axis_angle(ctx, cfg, F, H, done):
                 _subterms(c, 'atan2', atans, set())
             # the conventional (X, 0) answer may only be taken for |v| below a tiny threshold: otherwise small rotations are lost
             for c_, v_ in asg.items():
-                ks = [x for x in c_.args if isinstance(x, tm.T) and tm.is_const(x)] if c_.op in ('flt', 'fle') else []
-                if len(ks) == 1 and not (0.0 < abs(tm.f_of(ks[0])) <= 1e-6):
-                    bad = 'the degenerate branch is taken below %g: rotations by up to twice that angle lose their axis and angle' % tm.f_of(ks[0])
+                ks = [x for x in c_.args if isinstance(x, tm.T) and const_value(x) is not None] if c_.op in ('flt', 'fle') else []
+                if len(ks) == 1 and not (0.0 < abs(const_value(ks[0])) <= 1e-6):
+                    bad = 'the degenerate branch is taken below %g: rotations by up to twice that angle lose their axis and angle' % const_value(ks[0])
             if bad:
                 break
             if not atans:
+                if big_enough(asg) is True:
+                    bad = 'the degenerate (X, 0) answer is returned for |v| above the threshold (comparison reversed)'
+                    break
                 continue          # degenerate branch (no angle is computed)
+            if big_enough(asg) is False:
+                bad = 'the regular branch divides by |v| when |v| is below the threshold (comparison reversed)'
+                break
             if len(set(atans)) != 1:
                 bad = 'regular branch does not use exactly one atan2'
                 break
@@ -517,7 +549,12 @@ def run(ctx):
                         if all(tm.is_const(x) for x in ls):
                             if [tm.f_of(x) for x in ls] != [0.0, 0.0, 0.0, 1.0]:
                                 bad = 'the zero-length branch is not the identity quaternion'
+                            if big_enough(asg) is True:
+                                bad = 'the identity is returned for a non-zero scaled axis (comparison reversed)'
                             continue
+                        if big_enough(asg) is False:
+                            bad = 'the rotation branch divides by |v| for the zero vector (comparison reversed)'
+                            break
                         alg = nf.Algebra()
                         S = Spec(alg)
                         v = [alg.nf(x) for x in av.lanes]
